@@ -9,13 +9,13 @@ from typing import Any, Sequence
 
 from vp import core
 
-from props import c21_native
+from props import c21_native, c21_rules
 
 META = {
     "title": "x86 backend code computes the source results and honours the SysV ABI",
     "category": "translation_validation",
     "design_ref": "DESIGN.md §5 C21",
-    "lean_modules": ["XdslProofs.C21", "XdslProofs.C21Prologue"],
+    "lean_modules": ["XdslProofs.C21", "XdslProofs.C21Prologue", "XdslProofs.C21Rules"],
     "text": (
         "Lean: an x86-64 subset machine (16 GPRs as BitVec 64, qword-granular memory; mov r,r / r,imm / "
         "r,[rsp+k] / [rsp+k],r, add, sub, imul, and, or, xor, push, pop, ret, labels; 64/32/16/8-bit operand "
@@ -36,7 +36,20 @@ META = {
         "system assembler, linked with a C/assembly trampoline and called natively on boundary + random "
         "argument vectors (result vs. an xDSL-independent Python evaluation of the expression, callee-saved "
         "registers and rsp snapshot before/after). The Lean machine itself is cross-checked against the CPU "
-        "on the same calls and on random instruction sequences."
+        "on the same calls and on random instruction sequences. "
+        "RULES leg (XdslModel/X86Rules.lean, XdslProofs/C21Rules.lean): the scalar-integer lowering patterns themselves "
+        "(ArithConstantToX86, ArithBinaryToX86 addi/muli, LowerFuncOp entry sequence, LowerReturnOp, PtrAddToX86, "
+        "PtrLoadToX86/PtrStoreToX86 on non-vector values) and the four patterns of canonicalization_patterns/x86.py "
+        "are modelled as rules and proved sound once and for all: for ALL operand values and EVERY machine state "
+        "satisfying the rule's register precondition the emitted sequence leaves the MLIR result (Sem.intBin) in the "
+        "destination at the operand size of the type (64/32/16/8) and changes no other register or memory "
+        "(lower{Constant,Binary,FuncEntry,Return,PtrAdd,PtrLoad,PtrStore}_sound, *_ok_iff for what the pattern "
+        "rejects, x86_canon_sound for the canonicalization rules). The rule model is tied to the real patterns by "
+        "running the real pass / pattern on single-operation inputs over operation x type x immediate x operand "
+        "shape and comparing the emitted instruction list with the rule's; the emitted list is also executed on the "
+        "Lean machine (and a sample on the CPU) against an independent Python evaluation; generated functions "
+        "through the two lowering passes must give lowerSrc's code (lowerSrc_sound), and the pipeline's canonicalize "
+        "after register allocation is checked before/after on the machine and against the canonicalization rules."
     ),
     "technique": (
         "translation validation with a validator proved sound in Lean 4 + native execution of the assembled "
@@ -51,18 +64,44 @@ META = {
         "hand-written machine XdslModel/X86.lean (tied to the CPU by differential execution only); the "
         "asm-text parser in this file (every emitted line must parse, the parsed program is re-run natively "
         "and on the model); GNU as / gcc / the CPU; the trampoline. Programs whose polynomial exceeds the "
-        "validator's size guard are checked natively and on the Lean machine only (counted as toobig)."
+        "validator's size guard are checked natively and on the Lean machine only (counted as toobig). "
+        "Rules leg: the rule theorems are universal over operand values and machine states; what ties a rule to "
+        "the real pattern is the enumerated comparison of emitted sequences (virtual registers: sources 100.., new "
+        "temporaries 200..). Register preconditions (destination of an in-place update differs from the other "
+        "operand's register; new registers of the entry sequence are distinct and not argument registers still to "
+        "be read) are hypotheses the register allocator has to establish - they hold for distinct SSA values before "
+        "allocation (entryOk_virtual) and are checked per program by the validator after allocation. Not modelled: "
+        "float rows of the arith table, vector patterns, flags. Memory of the extended machine is qword-granular "
+        "(narrow stores replace the low bits of a slot). The canonicalization theorems assume that the facts read "
+        "off the defining operations hold when the instruction executes; for register-allocated code this is not "
+        "implied by SSA (dmConstantOffset_clobbered_counterexample). What the C21 sentence needs of them is judged: "
+        "the canonicalize that the documented pipeline runs after x86-allocate-registers on code lowered from "
+        "func/arith functions (register parameters, stack-parameter loads, constants, add/imul) is compared "
+        "before/after on the Lean machine on all 16 registers at the function's width and with the rules' prediction "
+        "(rules.pipeline_canon.*), as are the mov/add snippet shapes. OUTSIDE the quantifier and therefore only "
+        "observed (counted under rules.outside_pipeline_shapes, compared with the Lean rule for correspondence, never "
+        "reported as a failure): the ptr_xdsl lowering patterns and every {DM,MS}_Operation_ConstantOffset snippet "
+        "whose memory operand is computed by x86.rs.add - the func/arith pipeline only addresses memory through the "
+        "rsp block argument. Observation: on the pinned tree the ConstantOffset patterns rewrite the "
+        "'alloc-clobber' shapes (copy already in a register, source register overwritten before the access) "
+        "unsoundly (rules.outside_pipeline_shapes.rewritten_unsoundly: all of them, 24 per quick run); this is not a "
+        "violation of C21."
     ),
     "rule": (
         "streams: regression seeds (minimal inputs of the three defects found), systematic families "
         "(sum/product/Horner/many-live over 0..10 arguments × 5 types), random straight-line functions "
         "(0..10 args, 0..14 ops, boundary and random constants, chain/reuse/many-live operand profiles, rare "
-        "unsupported ops), random instruction sequences for the machine model. A compiled program is "
+        "unsupported ops), random instruction sequences for the machine model; rules leg: pattern x type "
+        "(i64,i32,i16,i8,index,ptr + rejected i1,i7,i24,i128,float,vector,tensor,memref) x boundary/random "
+        "immediates x operand shape (distinct/same/swapped/constant/chained operands; 0..12 parameters of mixed "
+        "types; allocated/unallocated/pre-allocated/clobbered registers for the canonicalization snippets), "
+        "non-trivial = a pattern fired and produced code (distinct = distinct input x emitted sequence). A compiled program is "
         "non-trivial when its assembly has ≥2 arithmetic instructions or reads a stack argument or "
         "pushes a callee-saved register; distinct = distinct assembly text."
     ),
     "trusted_base": [
         "harness/props/c21.py (generator, asm-text parser, Python expression evaluator, comparison)",
+        "harness/props/c21_rules.py (IR-to-instruction extraction of the rules leg, Python semantics of addi/muli/constant)",
         "harness/props/c21_native.py (C harness + assembly trampoline), GNU as, gcc, the CPU",
         "hand-written Lean x86 machine XdslModel/X86.lean (differentially tested against the CPU each run)",
     ],
@@ -975,6 +1014,8 @@ def run(ctx: core.Ctx) -> None:
     quick = ctx.tier == "quick"
     native = c21_native.Native()
     try:
+        # rules leg: the lowering / canonicalization patterns against their Lean rule model
+        c21_rules.run(ctx, native)
         nvec = 4 if quick else 8
         batches: list[list[Item]] = []
         first = [Item(c, "regression") for c in REGRESSION_CASES]
@@ -1031,6 +1072,8 @@ def run(ctx: core.Ctx) -> None:
 def replay(ctx: core.Ctx, body: dict) -> int:
     ctx.lean()
     case = body["case"]
+    if isinstance(case, dict) and any(k in case for k in ("rules_case", "snippet", "rules_program", "rules_pipeline")):
+        return c21_rules.replay(ctx, case)
     native = c21_native.Native()
     try:
         if "asm" in case and "case" not in case:
